@@ -152,6 +152,13 @@ Theorem C14_task_workflow_over_class_properties : forall wf sp cd cv k x,
 Proof. exact workflow_over_class_prop. Qed.
 Print Assumptions C14_task_workflow_over_class_properties.
 
+(* a value of the task template is visible only where the workflow is silent about the key *)
+Theorem C14_task_class_lowest_command : forall wf sp cd cv d v st k,
+  cmd_resolved wf sp cd cv = Some (d, v) -> cmd_stack wf sp cd cv = Some st ->
+  first_hit k [sp; wf] = None -> assoc k st = first_hit k [d; v].
+Proof. exact class_visible_iff_cmd. Qed.
+Print Assumptions C14_task_class_lowest_command.
+
 (* property map: special > workflow > class vars > class defaults, in full *)
 Theorem C14_task_properties_precedence : forall wf sp cd cv k,
   assoc k (prop_stack wf sp cd cv) = first_hit k [sp; wf; raw_map cv; raw_map cd].
